@@ -22,8 +22,13 @@ def nextest_config(sc, profile="default"):
     if sc.get("ta"):
         st += f', terminate-after = {sc["ta"]}'
     st += f', grace-period = "{ms(sc["grace"], u)}ms"'
-    return (f'[profile.{profile}]\nslow-timeout = {{ {st} }}\nleak-timeout = "{ms(sc["leak"], u)}ms"\n'
-            f'fail-fast = false\nretries = 0\n')
+    cfg = (f'[profile.{profile}]\nslow-timeout = {{ {st} }}\nleak-timeout = "{ms(sc["leak"], u)}ms"\n'
+           f'fail-fast = false\nretries = 0\n')
+    rc = sc.get("retry_companion")
+    if rc:
+        cfg += (f'[[profile.{profile}.overrides]]\nfilter = "test(a_retry)"\n'
+                f'retries = {{ backoff = "fixed", count = 1, delay = "{ms(rc["delay"], u)}ms" }}\n')
+    return cfg
 
 
 def puppet_scenario(sc):
@@ -41,6 +46,9 @@ def puppet_scenario(sc):
     if sc.get("child"):
         beh["child"] = {"for": (sc["dur"] + 12) * u, "hold": [], "on_term": "exit" if ot == "exit" else "ignore"}
     tests = {"subject": {"attempts": [beh]}}
+    if sc.get("retry_companion"):
+        # sorts before "subject" in the same binary; fails at once, then sits in its retry delay
+        tests["a_retry"] = {"attempts": [{"sleep": 0, "exit": 1}, {"sleep": 0, "exit": 0}]}
     bins = {"alpha::t1": {"tests": tests}}
     if sc.get("bystander"):
         bins["beta::t1"] = {"tests": {"bystander": {"attempts": [
@@ -353,6 +361,12 @@ def oracle_C12(sc, obs, baseline=None):
         if obs["run_elapsed"] > running + eps + 80:
             return (f"run-level elapsed time {obs['run_elapsed']:.0f} ms includes stopped time "
                     f"(nextest exited at {obs['nextest_exit_t']:.0f} ms of which {running:.0f} ms not stopped)")
+    if sc.get("ta") and not any(n in SHUT for _, n in sc["sigs"]):
+        deadline = sc["ta"] * sc["period"] * u
+        for t, sg in obs["sig_test"]:
+            if sg in (1, 2, 3, 15) and unstopped(t, stops) < deadline - eps:
+                return (f"signal {sg} reached the test at {t:.0f} ms, after only {unstopped(t, stops):.0f} ms of "
+                        f"running time; the deadline is {deadline:.0f} ms of running time")
     # the clocks keep working after resumption: a test that ignores SIGTERM is killed when
     # terminate-after periods plus the grace period of *running* time have passed
     period, ta, grace = sc["period"] * u, sc.get("ta"), sc["grace"] * u
